@@ -27,4 +27,50 @@ def PidOK (g : Adj) (p1 : Pid1) (p2 : Pid2) : Prop :=
 def IsClosedTrail (g : Adj) (r : List Nat) : Prop :=
   2 ≤ r.length ∧ r.Nodup ∧ ∀ ab ∈ cyclePairs r, ab.2 ∈ nbrsOf g ab.1
 
+/-! ## the model's stable insertion sort -/
+
+theorem insertBy_perm {α : Type} (le : α → α → Bool) (x : α) : ∀ l : List α, (insertBy le x l).Perm (x :: l)
+  | [] => List.Perm.refl _
+  | y :: ys => by
+    unfold insertBy
+    split
+    · exact List.Perm.refl _
+    · exact ((insertBy_perm le x ys).cons y).trans (List.Perm.swap x y ys)
+
+theorem isort_perm {α : Type} : ∀ (l : List α) (le : α → α → Bool), (isort le l).Perm l
+  | [], _ => List.Perm.refl _
+  | x :: xs, le => (insertBy_perm le x (isort le xs)).trans ((isort_perm xs le).cons x)
+
+theorem pairwise_insertBy {α : Type} {le : α → α → Bool} (trans : ∀ a b c : α, le a b = true → le b c = true → le a c = true)
+    (total : ∀ a b : α, (le a b || le b a) = true) (x : α) :
+    ∀ l : List α, l.Pairwise (fun a b => le a b = true) → (insertBy le x l).Pairwise (fun a b => le a b = true)
+  | [], _ => List.pairwise_singleton _ _
+  | y :: ys, h => by
+    unfold insertBy
+    have hy := List.pairwise_cons.1 h
+    split
+    · next hxy =>
+      refine List.pairwise_cons.2 ⟨?_, h⟩
+      intro z hz
+      rcases List.mem_cons.1 hz with rfl | hz
+      · exact hxy
+      · exact trans _ _ _ hxy (hy.1 z hz)
+    · next hxy =>
+      have hyx : le y x = true := by
+        have := total x y
+        simp only [Bool.or_eq_true] at this
+        rcases this with h1 | h1
+        · exact absurd h1 hxy
+        · exact h1
+      refine List.pairwise_cons.2 ⟨?_, pairwise_insertBy trans total x ys hy.2⟩
+      intro z hz
+      rcases List.mem_cons.1 ((insertBy_perm le x ys).mem_iff.1 hz) with rfl | hz
+      · exact hyx
+      · exact hy.1 z hz
+
+theorem pairwise_isort {α : Type} {le : α → α → Bool} (trans : ∀ a b c : α, le a b = true → le b c = true → le a c = true)
+    (total : ∀ a b : α, (le a b || le b a) = true) : ∀ l : List α, (isort le l).Pairwise (fun a b => le a b = true)
+  | [] => List.Pairwise.nil
+  | x :: xs => pairwise_insertBy trans total x _ (pairwise_isort trans total xs)
+
 end ChythonModel.Proofs.C06
